@@ -81,6 +81,12 @@ class Budget:
                     self.B_om[i] += self.tvar[i] / c * (4e-15 / t)
                     self.B_de_rel[i] += self.tvar[i] / (c * c) * (4e-13 / t)
                     b = band(x, t)
+                    # vt's small-band branch returns -x +- t: a jump of 2t at x = 0 (both values are within C17's 2t of the exact
+                    # V~(0) = 0).  Two presentations whose team sums differ by an ulp can land on either side: allow the jump
+                    # (this is the "draw-margin term, of order kappa" that C05 / C07 name) when x is zero up to rounding.
+                    if b < 1e-5 * (1 + 1e-3) and abs(x) * c <= 1e-9 * (self.tabs[i] + self.tabs[q]) + 1e-300:
+                        self.B_om[i] += self.tvar[i] / c * (2.0 * t)
+                        self.sign_jump_pairs = getattr(self, "sign_jump_pairs", 0) + 1
                     for lv in (EPS, 1e-5):
                         if b > 0 and abs(b / lv - 1.0) < 1e-3:
                             self.near_boundary = True
